@@ -48,7 +48,7 @@ class Randomizer(ABC):
         self.probability = probability
 
     def _skip_value(self) -> bool:
-        use = self.probability == 1.0 or random.random() <= self.probability
+        use = self.probability == 1.0 or random.random() < self.probability
         return not use
 
     @abstractmethod
